@@ -182,7 +182,7 @@ pub fn fresh_start(e: &'static Engine, prev: Prev, workers: usize, detached: boo
             Prev::TimedOutParkVsUnpark => coroutine::park_timeout(Duration::from_millis(1)),
             Prev::TimedOutBlockerVsUnpark => {
                 let b = Blocker::current();
-                *SLOT.lock().unwrap() = Some(b.clone());
+                *SLOT.lock().unwrap_or_else(|e| e.into_inner()) = Some(b.clone());
                 let _ = b.park(Some(Duration::from_millis(1)));
             }
         }
@@ -200,7 +200,7 @@ pub fn fresh_start(e: &'static Engine, prev: Prev, workers: usize, detached: boo
         Prev::TimedOutBlockerVsUnpark => {
             e.vsleep(1_000_000);
             // (the blocker is published before the park; if P has not got there yet the unpark simply comes first)
-            if let Some(b) = SLOT.lock().unwrap().take() {
+            if let Some(b) = SLOT.lock().unwrap_or_else(|e| e.into_inner()).take() {
                 b.unpark();
             }
         }
@@ -224,7 +224,7 @@ pub fn fresh_start(e: &'static Engine, prev: Prev, workers: usize, detached: boo
         let v2 = K2.with(|c| c.0.get());
         // first blocking call: woken by a plain unpark, it must return Ok (no stale Timeout / Canceled result)
         let b = Blocker::current();
-        *SLOT.lock().unwrap() = Some(b.clone());
+        *SLOT.lock().unwrap_or_else(|e| e.into_inner()) = Some(b.clone());
         READY.store(true, Ordering::SeqCst);
         let r = b.park(None);
         match end {
@@ -240,7 +240,7 @@ pub fn fresh_start(e: &'static Engine, prev: Prev, workers: usize, detached: boo
         (v1, v2, r.is_ok())
     });
     e.wait_flag(&READY);
-    let b = SLOT.lock().unwrap().take().unwrap();
+    let b = SLOT.lock().unwrap_or_else(|e| e.into_inner()).take().unwrap();
     b.unpark();
     if end == End::Cancelled {
         e.wait_flag(&FRESH_PARKED);
